@@ -137,11 +137,45 @@ def trace(repo="/repo"):
         vel = _cols(tr, ["ux", "uy", "uz"])
         f0, f1, roll, pitch, yaw = (st.new_input(tr, n) for n in ("f0", "f1", "roll", "pitch", "yaw"))
         sg = run(lambda: geo.ScanGeometry((f0, f1), np.zeros(0)))
-        vec = run(lambda: sg.vectors(pos, vel, roll, pitch, yaw))
+        # spy on the three qrotate calls made by vectors (arguments and results recorded, behaviour unchanged)
+        real_qrotate = geo.qrotate
+        calls = []
+
+        def _spy(vector, axis, angle):
+            r = real_qrotate(vector, axis, angle)
+            calls.append((vector.copy(), axis.copy(), angle, r.copy()))
+            return r
+        geo.qrotate = _spy
+        try:
+            vec = run(lambda: sg.vectors(pos, vel, roll, pitch, yaw))
+        finally:
+            geo.qrotate = real_qrotate
         if vec.shape != (3, 1):
             raise st.Unsupported("vectors returned shape %r for one column" % (vec.shape,))
+        if len(calls) != 3 or any(c[0].shape != (3, 1) or c[1].shape != (3, 1) for c in calls):
+            raise st.Unsupported("vectors is not three successive per-column qrotate calls")
+        if [s_.n for s_ in calls[2][3][:, 0]] != [s_.n for s_ in vec[:, 0]]:
+            raise st.Unsupported("vectors does not return its last qrotate result")
         insv = ["px", "py", "pz", "ux", "uy", "uz", "lat", "f0", "f1", "roll", "pitch", "yaw"]
-        vec_defs = [("gen_vectors_%s" % nm, insv, s.n) for nm, s in zip("xyz", vec[:, 0])]
+
+        def used(nodes_):
+            got = {tr.g.nodes[i][1] for i in emit.cone(tr.g, list(nodes_))[0] if tr.g.nodes[i][0] == "in"}
+            return [n_ for n_ in insv if n_ in got]
+        vec_defs = []
+        vec_known = []          # names whose nodes later definitions print as calls
+
+        def add_vec(prefix, arr3, share=True):
+            ins_ = used([s_.n for s_ in arr3])
+            for nm, s_ in zip("xyz", arr3):
+                vec_defs.append(("%s_%s" % (prefix, nm), ins_, s_.n))
+                if share:
+                    vec_known.append("%s_%s" % (prefix, nm))
+        add_vec("gen_vec_nadir", calls[0][0][:, 0])      # subpoint(-pos) / |.|
+        add_vec("gen_vec_xaxis", calls[0][1][:, 0])      # vel / |vel|
+        add_vec("gen_vec_yaxis", calls[1][1][:, 0])      # cross(nadir, vel) / |.|
+        add_vec("gen_vec_rot1", calls[0][3][:, 0])       # qrotate(nadir, x, fovs[0] + roll)
+        add_vec("gen_vec_rot2", calls[1][3][:, 0])       # qrotate(rot1, y, fovs[1] + pitch)
+        add_vec("gen_vectors", vec[:, 0], share=False)   # qrotate(rot2, nadir, yaw)
     finally:
         geo.geodetic_lat = real_geodetic_lat
 
@@ -202,6 +236,7 @@ def trace(repo="/repo"):
     for nm, s in zip("xyz", pix[:, 0]):
         defs.append(("gen_pixel_%s" % nm, insp, s.n))
     defs += vec_defs
+    tr.vec_known = vec_known
     return tr, defs, graphs
 
 
@@ -209,12 +244,13 @@ def generate(out, repo="/repo"):
     tr, defs, graphs = trace(repo)
     text = emit.HEADER + "\n"
     known = {}
+    tr_known = set(tr.vec_known)
     for name, ins, node in defs:
         if name in graphs:
             text += emit.definition(graphs[name], name, ins, node) + "\n"
             continue
         text += emit.definition(tr.g, name, ins, node, known=known) + "\n"
-        if name.startswith("gen_pixel_") and tr.g.nodes[node][0] not in ("const", "in", "pi"):
+        if (name.startswith("gen_pixel_") or name in tr_known) and tr.g.nodes[node][0] not in ("const", "in", "pi"):
             known.setdefault(node, "(%s %s)" % (name, " ".join(ins)))
     old = open(out).read() if os.path.exists(out) else None
     if old != text:
